@@ -14,7 +14,7 @@ CONFIG = {
              "child leaves inside the wrapper). kinds: cuts = first round (subject = the generated polygon), cutsn = later rounds "
              "(subjects are pieces Clipper returned), fracidx = the expression (uint64_t)(j * (count / (num_cuts + 1.0))) for "
              "counts up to 2^53, cutsall = corpus / replay only (all rounds on the real slice; a fracture that does not return is a "
-             "failing oracle line c12-fracture-hang). I = `x|y <cuts as hex doubles>` / nocall / crash / hang, M = the extracted fracture_cuts on the "
+             "failing oracle line c12-cutsall-hang). I = `x|y <cuts as hex doubles>` / nocall / crash / hang, M = the extracted fracture_cuts on the "
              "same subject and limit, compared as text. Generators: star, comb, saw, stairs, spiral, convex polygons on the 1e-3 "
              "grid with collinear / repeated vertices and off-grid shifts (all rounds); few-interior (0, <= num_cuts, num_cuts + 1, "
              "num_cuts + 2 interior coordinates); frac-exact (interior counts for which j * count / (num_cuts + 1) is an integer for some j, "
